@@ -1,13 +1,18 @@
-/* C13: mpeg2_ts_pkt_size_detect on a receive buffer of symbolic, unbounded size; loop contracts
- * (loops/mpeg2ts_size_detect.json) applied WITHOUT --dfcc ("mode":"plain").
- * Reason: the function keeps up to 64 candidate pointers in a local array; under --dfcc every
- * pointer read back from that (loop-havocked) array may alias each object of the contracts
- * library, and the run does not finish (33 M clauses, > 15 min); without --dfcc the same loop
- * contracts close.  What replaces the --dfcc function contract here:
+/* C13: mpeg2_ts_pkt_size_detect on a receive buffer of symbolic size ("mode":"plain", bounded).
+ * The candidate-collecting loop over the buffer carries a loop contract
+ * (loops/mpeg2ts_size_detect.json, applied WITHOUT --dfcc: invariant with a quantifier over the 64
+ * slots of pkts[], assigns, decreases) and closes for any buffer size; the three nested analysis
+ * loops (4 x cnt x cnt) and the final loop are fully unwound, which needs a bound on the number of
+ * candidates cnt <= buf_size - 207: VF_TS_BUF_MAX = 210 gives cnt <= 3.
+ * Why not --dfcc / why not unbounded: the function keeps up to 64 candidate pointers in a local
+ * array; under --dfcc every pointer read back from that (loop-havocked) array may alias each object
+ * of the contracts library (33 M clauses, no result in 15 min); with loop contracts on all five
+ * loops the plain run does not finish either (> 15 min on every back end).
+ * What replaces the --dfcc function contract here:
  *   requires -> buf is NULL or an exact-size heap object of symbolic size (malloc), the
  *               out-parameter NULL or a local
  *   ensures  -> asserted below (same text as the ensures clauses of contracts/mpeg2ts.h)
- *   assigns  -> loop assigns clauses (checked) + exact-size objects
+ *   assigns  -> loop assigns clause (checked) + exact-size objects
  * memchr: loop-free nondeterministic body = the assumed contract of stubs/libc.h (result NULL or
  * a position inside the span holding the byte; the span must be readable). */
 #include "contracts/mpeg2ts.h"
